@@ -201,6 +201,12 @@ def check(run):
     t_op = os.path.join(wd, "trace_oprace.ndjson")
     judge(run, pool, [harness(run, ["oprace", t_op, 12], t_op)], "operation-creation-race")
     run.cov["operation_creation_race_points"] = sum(1 for r in read_ndjson(t_op) if r.get("ev") == "reset" and r["tag"].get("a_parked"))
+    # the tracker installed as THE global allocator (its own bookkeeping allocates through itself): threads whose first tracked
+    # event - and so their registration - falls inside an open process span, for thread ordinals 3.. of the process (the registry of per-thread counters grows at the 5th, 9th, 17th, 33rd, 65th ..)
+    t_g = os.path.join(wd, "trace_global.ndjson")
+    vlib.run_bin("h_alloc_global", [t_g, 140 if thorough else 72], env={"VERIF_SEED": run.seed}, timeout=600)
+    judge(run, pool, [t_g], "global-allocator")
+    run.cov["global_allocator_rounds"] = sum(1 for r in read_ndjson(t_g) if r.get("ev") == "reset")
     pool.shutdown()
     if run.cov.get("harness_crashes") and not run.violations and not run.known_hits:
         raise vlib.ToolError("the harness process crashed (%s) and the judge found nothing wrong in what was recorded before"
